@@ -41,7 +41,10 @@ enum Bin { Add, Or, And, Xor, Mul }
 const BINS: [Bin; 5] = [Bin::Add, Bin::Or, Bin::And, Bin::Xor, Bin::Mul];
 
 #[derive(Clone, Debug)]
-enum Op { AssignConst(usize, u64), AssignAdd(usize, usize, u64), AssignCopy(usize, usize), AssignBin(usize, usize, usize, Bin), Load(usize), Nop }
+enum Op { AssignConst(usize, u64), AssignAdd(usize, usize, u64), AssignCopy(usize, usize), AssignBin(usize, usize, usize, Bin), Load(usize), Nop,
+          /// store of a scalar, indirect branch (a call: the analysis forgets everything, the concrete state keeps its values),
+          /// intrinsic with undeclared effects (same), intrinsic declaring that it writes one scalar (a random value)
+          Store(usize), Branch, IntrUndeclared, IntrWrites(usize) }
 
 fn gen(rng: &mut Rng) -> (usize, Vec<Vec<Op>>, Vec<(usize, usize)>) {
     let bits = if rng.below(3) == 0 { 8 } else { 32 };
@@ -56,12 +59,16 @@ fn gen(rng: &mut Rng) -> (usize, Vec<Vec<Op>>, Vec<(usize, usize)>) {
             let v = rng.below(3) as usize;
             let w = rng.below(3) as usize;
             let u = rng.below(3) as usize;
-            ops.push(match rng.below(10) {
+            ops.push(match rng.below(14) {
                 0 | 1 => Op::AssignConst(v, rng.below(3)),
                 2 => Op::AssignAdd(v, w, rng.below(2)),
                 3 => Op::AssignCopy(v, w),
                 4 | 5 | 6 => Op::AssignBin(v, w, u, BINS[rng.below(5) as usize]),
                 7 | 8 => Op::Load(v),
+                10 => Op::Store(v),
+                11 => Op::Branch,
+                12 => Op::IntrUndeclared,
+                13 => Op::IntrWrites(v),
                 _ => Op::Nop,
             });
         }
@@ -98,6 +105,10 @@ fn build(bits: usize, blocks: &[Vec<Op>], edges: &[(usize, usize)]) -> Function 
                 Op::AssignBin(v, w, u, o) => b.assign(sc(*v, bits), bin_expr(*o, ex(*w, bits), ex(*u, bits))),
                 Op::Load(v) => b.load(sc(*v, bits), expr_const(0x10, bits)),
                 Op::Nop => b.nop(),
+                Op::Store(v) => b.store(expr_const(0x20, bits), ex(*v, bits)),
+                Op::Branch => b.branch(expr_const(0x4000, bits)),
+                Op::IntrUndeclared => b.intrinsic(Intrinsic::new("syscall", "syscall", vec![], None, None, vec![0x0f, 0x05])),
+                Op::IntrWrites(v) => b.intrinsic(Intrinsic::new("rd", "rd", vec![], Some(vec![ex(*v, bits)]), Some(vec![]), vec![0x0f, 0x31])),
             }
         }
     }
@@ -207,7 +218,7 @@ fn main() {
                             Op::AssignAdd(_, w, k) => Some((Expression::add(ex(*w, bits), expr_const(*k, bits)).unwrap(), (store[*w] + *k) & mask, vec![*w])),
                             Op::AssignCopy(_, w) => Some((ex(*w, bits), store[*w], vec![*w])),
                             Op::AssignBin(_, w, u, o) => Some((bin_expr(*o, ex(*w, bits), ex(*u, bits)), bin_val(*o, store[*w], store[*u], mask), vec![*w, *u])),
-                            Op::Load(_) | Op::Nop => None,
+                            Op::Load(_) | Op::Nop | Op::Store(_) | Op::Branch | Op::IntrUndeclared | Op::IntrWrites(_) => None,
                         };
                         if let Some((e, val, reads)) = rhs { if reads.iter().all(|r| assigned[*r]) { check_eval!(c, b, i, e, val); } }
                         // probe (first four executions): a random operator on a random pair of assigned scalars
@@ -217,8 +228,8 @@ fn main() {
                         }
                     }
                     match op {
-                        Op::AssignConst(v, _) | Op::AssignAdd(v, _, _) | Op::AssignCopy(v, _) | Op::AssignBin(v, _, _, _) | Op::Load(v) => assigned[*v] = true,
-                        Op::Nop => {}
+                        Op::AssignConst(v, _) | Op::AssignAdd(v, _, _) | Op::AssignCopy(v, _) | Op::AssignBin(v, _, _, _) | Op::Load(v) | Op::IntrWrites(v) => assigned[*v] = true,
+                        Op::Nop | Op::Store(_) | Op::Branch | Op::IntrUndeclared => {}
                     }
                     match op {
                         Op::AssignConst(v, k) => store[*v] = *k,
@@ -226,8 +237,8 @@ fn main() {
                         Op::AssignCopy(v, w) => store[*v] = store[*w],
                         Op::AssignBin(v, w, u, o) => store[*v] = bin_val(*o, store[*w], store[*u], mask),
                         // small values (so that they collide with the constants 0..2) or a value with high bits set
-                        Op::Load(v) => store[*v] = if rng.below(4) == 0 { (0x80 + rng.below(0x70)) & mask } else { rng.below(4) },
-                        Op::Nop => {}
+                        Op::Load(v) | Op::IntrWrites(v) => store[*v] = if rng.below(4) == 0 { (0x80 + rng.below(0x70)) & mask } else { rng.below(4) },
+                        Op::Nop | Op::Store(_) | Op::Branch | Op::IntrUndeclared => {}
                     }
                     steps += 1;
                 }
